@@ -192,6 +192,33 @@ pub fn run(ctx: &mut Ctx) -> &'static str {
             }
         }
     }
+    // non-finite arguments (NaN, the infinities, negative zero): outside the property's "every magnitude and
+    // sign", so no verdict of the oracle, but the model has to agree with the code bit for bit there too
+    // (a NaN speed or distance is NOT rejected: NaN <= 0 is false, so create_time answers Ok(NaN))
+    {
+        const SPECIAL: [f64; 6] = [f64::NAN, f64::INFINITY, f64::NEG_INFINITY, -0.0, 0.0, 3.5];
+        for su in S.iter() {
+            for du in D.iter().take(2) {
+                for tu in T.iter().take(2) {
+                    for s in SPECIAL.iter() {
+                        for d in SPECIAL.iter() {
+                            if s.is_finite() && d.is_finite() && *s != 0.0 && *d != 0.0 {
+                                continue;
+                            }
+                            let Some(idx) = ctx.begin() else { continue };
+                            let r = Time::create(&Speed::new(*s), su, &Distance::new(*d), du, tu);
+                            let out = match &r {
+                                Ok(t) => format!("some {}", fbits(t.as_f64())),
+                                Err(_) => "none".to_string(),
+                            };
+                            ctx.emit(idx, format!("ctime {} {} {} {} {}", su, du, tu, fbits(*s), fbits(*d)), out);
+                            ctx.count(if r.is_ok() { "create_time_nonfinite_ok" } else { "create_time_nonfinite_rejected" });
+                        }
+                    }
+                }
+            }
+        }
+    }
     // create_speed over every unit triple
     for tu in T.iter() {
         for du in D.iter() {
